@@ -1,18 +1,26 @@
 // C40 — Validation and state queries are safe under concurrency.
 //
 // (a) translator: per-method lock/field summaries of dpos/state.State,
-//     cr/state.Committee and mempool.TxPool written to coq/gen/C40_summaries.v,
-//     checked in Coq by the verified lockset checker; the same checker is
-//     evaluated here to name the witness (method, field, conflicting method).
+//
+//	cr/state.Committee and mempool.TxPool written to coq/gen/C40_summaries.v,
+//	checked in Coq by the verified lockset checker; the same checker is
+//	evaluated here to name the witness (method, field, conflicting method).
+//
 // (b) snapshot isolation of the DPoS / CR / txpool checkpoints by a reflect
-//     walk over the real objects (pointer identities, then mutation).
+//
+//	walk over the real objects (pointer identities, then mutation).
+//
 // (c) thorough tier: concurrent driving under the race detector (search only).
 package main
 
 import (
 	"fmt"
 	"os"
+	"os/exec"
+	"path/filepath"
 	"reflect"
+	"regexp"
+	"sort"
 	"strings"
 
 	"verifharness/elaenv"
@@ -31,7 +39,12 @@ func main() {
 
 	runLockset(run, st, sh, next)
 	runSnapshots(run, rng, st, sh, next)
+	runDeepReturns(run, rng, st)
+	if run.Thorough() {
+		runRace(run, st)
+	}
 
+	flushFailures(st, pending)
 	st.Traces = st.Evals
 	sh.Flush()
 	st.Write(run.Out)
@@ -73,7 +86,7 @@ func runSnapshots(run *lib.Run, rng *lib.Rng, st *lib.Stats, sh *lib.Shards, nex
 				if os.Getenv("C40_DEBUG") != "" {
 					kind.run(newWorld(rng.Fork(), n))
 				}
-				st.Fail("snapshot:"+kind.name+":panic", "snapshot function panicked on a populated live state", map[string]interface{}{"kind": kind.name, "n": n, "panic": fmt.Sprint(val)})
+				failLater("snapshot:"+kind.name+":panic", "snapshot function panicked on a populated live state", map[string]interface{}{"kind": kind.name, "n": n, "panic": fmt.Sprint(val)})
 				r = snapResult{Kind: kind.name, Nil: true}
 			}
 			var sites []string
@@ -94,17 +107,17 @@ func runSnapshots(run *lib.Run, rng *lib.Rng, st *lib.Stats, sh *lib.Shards, nex
 				"shared": trunc(r.Shared, 12), "shared_sites": r.SharedSites, "changed": r.Changed, "live_changed": r.LiveChanged, "perturbed": r.Perturbed, "diff": r.Diff})
 			st.Count(fmt.Sprintf("snap:%s:%d:%d:%v", kind.name, n, r.Idents, r.SharedSites), !r.Nil && r.Idents > 0 && r.Perturbed > 0, "snapshot:"+kind.name)
 			if r.Nil && !panicked {
-				st.Fail("snapshot:"+kind.name+":nil", "Snapshot() returned nil on a populated live state (codec rejected it)", map[string]interface{}{"kind": kind.name, "n": n})
+				failLater("snapshot:"+kind.name+":nil", "Snapshot() returned nil on a populated live state (codec rejected it)", map[string]interface{}{"kind": kind.name, "n": n})
 			}
 			for _, s := range r.SharedSites {
 				what := fmt.Sprintf("%s shares %s with the live state (same address reachable from both); a later change of the live state shows through the snapshot", kind.name, s)
-				st.Fail("snapshot-alias:"+kind.name+":"+s, what, map[string]interface{}{"kind": kind.name, "n": n, "paths": trunc(filterPrefix(r.Shared, s+"|"), 4), "snapshot_changed_after_live_mutation": r.Changed})
+				failLater("snapshot-alias:"+kind.name+":"+s, what, map[string]interface{}{"kind": kind.name, "n": n, "paths": trunc(filterPrefix(r.Shared, s+"|"), 4), "snapshot_changed_after_live_mutation": r.Changed})
 			}
 			if r.Changed && len(r.SharedSites) == 0 {
-				st.Fail("snapshot-changed:"+kind.name, "snapshot changed when the live state was mutated although no shared address was found", map[string]interface{}{"kind": kind.name, "n": n, "diff": r.Diff})
+				failLater("snapshot-changed:"+kind.name, "snapshot changed when the live state was mutated although no shared address was found", map[string]interface{}{"kind": kind.name, "n": n, "diff": r.Diff})
 			}
 			if r.LiveChanged {
-				st.Fail("snapshot-writes-live:"+kind.name, "taking the snapshot changed the live state", map[string]interface{}{"kind": kind.name, "n": n, "diff": r.Diff})
+				failLater("snapshot-writes-live:"+kind.name, "taking the snapshot changed the live state", map[string]interface{}{"kind": kind.name, "n": n, "diff": r.Diff})
 			}
 			if n == 2 {
 				st.Sample(map[string]interface{}{"op": "snapshot", "kind": kind.name, "idents": r.Idents, "live_idents": r.LiveIdents, "shared_sites": r.SharedSites, "perturbed": r.Perturbed})
@@ -158,3 +171,111 @@ var snapshotKinds = []snapKind{
 }
 
 var _ = reflect.TypeOf
+
+var pending []pendingFail
+
+func failLater(sig, what string, input interface{}) {
+	pending = append(pending, pendingFail{sig, what, input})
+}
+
+// runDeepReturns: accessors the translator delegates to the dynamic oracle.
+func runDeepReturns(run *lib.Run, rng *lib.Rng, st *lib.Stats) {
+	var report []map[string]interface{}
+	for _, d := range deepReturns {
+		w := newWorld(rng.Fork(), 3)
+		var r snapResult
+		var called int
+		if p, val := lib.Recover(func() { r, called = w.checkDeepReturn(d) }); p {
+			report = append(report, map[string]interface{}{"method": d.Group + "." + d.Method, "panic": fmt.Sprint(val)})
+			continue
+		}
+		var sites []string
+		for _, s := range r.SharedSites {
+			if !benignSharedSlices[s] && !benignDeepSlices[s] {
+				sites = append(sites, s)
+			}
+		}
+		st.Count(fmt.Sprintf("deep:%s.%s:%d:%v", d.Group, d.Method, r.Idents, sites), called > 0 && r.Idents > 0, "deep-copy-return")
+		report = append(report, map[string]interface{}{"method": d.Group + "." + d.Method, "calls": called, "idents": r.Idents, "shared_sites": r.SharedSites})
+		for _, s := range sites {
+			failLater("snapshot-alias:"+d.Group+"."+d.Method+":"+s, fmt.Sprintf("%s.%s returns a copy that still shares %s with the protected state; callers read it after the lock is released", d.Group, d.Method, s),
+				map[string]interface{}{"method": d.Group + "." + d.Method, "where": d.Pos, "paths": trunc(filterPrefix(r.Shared, s+"|"), 4)})
+		}
+	}
+	st.Extra["deep_copy_returns_checked"] = report
+}
+
+// benignDeepSlices: see benignSharedSlices.
+// Payload data of the registering transaction (budgets, custom-id lists, vote
+// lists): built once when the transaction is processed, never written in place.
+var benignDeepSlices = map[string]bool{
+	"slice:DetailedVoteInfo.Info":                true,
+	"slice:CRCProposalInfo.Budgets":              true,
+	"slice:CRCProposalInfo.ReceivedCustomIDList": true,
+	"slice:CRCProposalInfo.ReservedCustomIDList": true,
+}
+
+// runRace (thorough tier): build harness/cmd/c40race with the race detector,
+// run it, and report the method pairs the detector names. Reports on methods
+// that are recorded culprits are replays of those findings; a report naming
+// only methods the model claims protected would be a concrete failing
+// schedule. No report is never counted as evidence.
+func runRace(run *lib.Run, st *lib.Stats) {
+	bin := filepath.Join(run.Out, "c40race")
+	args := []string{"build", "-race", "-tags", "verif", "-o", bin}
+	if run.Repo != "/repo" {
+		// scratch mode: same substitution as tools/check.py
+		b, _ := os.ReadFile("/verif/harness/go.mod")
+		mf := filepath.Join(run.Out, "race.go.mod")
+		os.WriteFile(mf, []byte(strings.Replace(string(b), "=> /repo", "=> "+run.Repo, 1)), 0o644)
+		if s, err := os.ReadFile(filepath.Join(run.Repo, "go.sum")); err == nil {
+			os.WriteFile(filepath.Join(run.Out, "race.go.sum"), s, 0o644)
+		}
+		args = append(args, "-modfile", mf)
+	}
+	args = append(args, "./cmd/c40race")
+	cmd := exec.Command("go", args...)
+	cmd.Dir = "/verif/harness"
+	cmd.Env = append(os.Environ(), "CGO_ENABLED=1", "GOFLAGS=-mod=mod", "GOPROXY=off", "GOSUMDB=off", "GOTOOLCHAIN=local")
+	if out, err := cmd.CombinedOutput(); err != nil {
+		st.Extra["race_run"] = "race build unavailable: " + err.Error() + " " + string(out[:minInt(len(out), 300)])
+		return
+	}
+	re := regexp.MustCompile(`state\.\(\*(State|Committee)\)\.(\w+)`)
+	pairs := map[string]int{}
+	var reports []string
+	fatal := map[string]string{}
+	for _, mode := range []string{"replay1", "replay2", "getters"} {
+		c := exec.Command(bin, "2s", mode)
+		c.Env = append(os.Environ(), "GORACE=halt_on_error=0 history_size=2")
+		out, _ := c.CombinedOutput()
+		if i := strings.Index(string(out), "fatal error:"); i >= 0 {
+			fatal[mode] = strings.SplitN(string(out)[i:], "\n", 2)[0] // the runtime's own crash (e.g. concurrent map writes)
+		}
+		rs := strings.Split(string(out), "WARNING: DATA RACE")[1:]
+		reports = append(reports, rs...)
+		for _, r := range rs {
+			ms := map[string]bool{}
+			for _, mm := range re.FindAllStringSubmatch(r, -1) {
+				ms[mm[1]+"."+mm[2]] = true
+			}
+			var names []string
+			for k := range ms {
+				names = append(names, k)
+			}
+			sort.Strings(names)
+			pairs[mode+": "+strings.Join(names, " | ")]++
+		}
+	}
+	st.Extra["race_runtime_crashes"] = fatal
+	st.Extra["race_reports"] = len(reports)
+	st.Extra["race_method_sets"] = pairs
+	st.Hist["race-detector-reports"] = len(reports)
+}
+
+func minInt(a, b int) int {
+	if a < b {
+		return a
+	}
+	return b
+}
